@@ -52,12 +52,27 @@ def worker(job):
         "inline": 'S: X;\nX: "%s" A;\nA: "!!";\n' % esc(t) + (("terminals\n" + kwdecl) if kwdecl else ""),
         "declared": 'S: X;\nX: T_ A;\nA: "!!";\nterminals\nT_: "%s";\n' % esc(t) + kwdecl,
     }
+    if kw == "none":
+        # the declared form written in an IMPORTED file (the grammar options, ignore_case among them, hold for every file of the grammar)
+        forms["imported"] = ('import "lib.pg";\nS: lib.X;\n', 'X: T_ A;\nA: "!!";\nterminals\nT_: "%s";\n' % esc(t))
     for form, text in forms.items():
         rec = {"built": False, "err": "", "match": [[0] * (len(s) + 1) for s in ins], "sentence": False, "iskw": False}
         try:
             with real.guard(10), real.quiet():
-                g = real.Grammar.from_string(text, ignore_case=ic)
-                if form == "declared":
+                if form == "imported":
+                    import os
+                    import tempfile
+
+                    d = tempfile.mkdtemp(prefix="str-", dir=scratch())
+                    for fn, body in zip(("root.pg", "lib.pg"), text):
+                        with open(os.path.join(d, fn), "w") as fh:
+                            fh.write(body)
+                    g = real.Grammar.from_file(os.path.join(d, "root.pg"), ignore_case=ic)
+                else:
+                    g = real.Grammar.from_string(text, ignore_case=ic)
+                if form == "imported":
+                    term = g.terminals["lib.T_"]
+                elif form == "declared":
                     term = g.terminals["T_"]
                 else:
                     cands = [x for n, x in g.terminals.items() if n not in ("EMPTY", "STOP", "KEYWORD", "!!")]
@@ -78,6 +93,9 @@ def worker(job):
         except Exception as e:  # noqa: BLE001
             rec["err"] = "%s: %s" % (type(e).__name__, str(e)[:100])
         case[form] = rec
+    if "imported" not in case:
+        case["imported"] = {"built": False, "err": "", "match": [], "sentence": False, "iskw": False}
+    case["hasimported"] = "imported" in forms
     return [case]
 
 
